@@ -28,19 +28,22 @@ def uninterrupted_states(n):
     return out
 
 
+_MODEL_CLS = []
+
+
 def fresh_model_opt():
     import torch
+    if not _MODEL_CLS:
+        class M(torch.nn.Module):
+            def __init__(self):
+                super().__init__()
+                self.w = torch.nn.Parameter(torch.zeros(1, dtype=torch.float64))
 
-    class M(torch.nn.Module):
-        def __init__(self):
-            super().__init__()
-            self.w = torch.nn.Parameter(torch.zeros(1, dtype=torch.float64))
-
-        def reset_parameters(self):
-            with torch.no_grad():
-                self.w.fill_(0.0)
-
-    m = M()
+            def reset_parameters(self):
+                with torch.no_grad():
+                    self.w.fill_(0.0)
+        _MODEL_CLS.append(M)
+    m = _MODEL_CLS[0]()
     with torch.no_grad():
         m.w.fill_(-1.0)  # junk until something is loaded
     o = torch.optim.SGD(m.parameters(), lr=1.0)
@@ -83,24 +86,38 @@ def make_params(case):
         **case.get("extra_params", {}))
 
 
+_CONTENT_CACHE = {}
+
+
 def classify_content(path):
+    """What a file holds: ["empty"] | ["torn"] | ["model", w] | ["optim", tag]. Cached by the bytes."""
+    import io
     import torch
     try:
-        sz = os.path.getsize(path)
+        with open(path, "rb") as f:
+            data = f.read()
     except OSError:
         return ["missing"]
-    if sz == 0:
+    if not data:
         return ["empty"]
-    try:
-        d = torch.load(path, map_location="cpu")
-    except BaseException:
-        return ["torn"]
-    if isinstance(d, dict) and "w" in d:
-        v = float(d["w"].item())
-        return ["model", int(v) if v.is_integer() else v]
-    if isinstance(d, dict) and "param_groups" in d:
-        return ["optim", d["param_groups"][0].get("tag")]
-    return ["other"]
+    if data not in _CONTENT_CACHE:
+        if len(_CONTENT_CACHE) > 5000:
+            _CONTENT_CACHE.clear()
+        try:
+            d = torch.load(io.BytesIO(data), map_location="cpu")
+        except BaseException:
+            d = None
+        if d is None:
+            c = ["torn"]
+        elif isinstance(d, dict) and "w" in d:
+            v = float(d["w"].item())
+            c = ["model", int(v) if v.is_integer() else v]
+        elif isinstance(d, dict) and "param_groups" in d:
+            c = ["optim", d["param_groups"][0].get("tag")]
+        else:
+            c = ["other"]
+        _CONTENT_CACHE[data] = c
+    return list(_CONTENT_CACHE[data])
 
 
 def snapshot(case, n, state_dir, csv_path):
@@ -179,14 +196,42 @@ def abstract_trace(case, n, state_dir, csv_path, ops):
     return out
 
 
+_BASE = [None]
+
+
+def _base_dir():
+    """One directory under /tmp per harness process (removed at exit); workspaces live inside."""
+    import atexit
+    if _BASE[0] is None or not os.path.isdir(_BASE[0]):
+        _BASE[0] = tempfile.mkdtemp(prefix="c16_", dir="/tmp")
+        atexit.register(shutil.rmtree, _BASE[0], True)
+    return _BASE[0]
+
+
 class Workspace:
+    """A fresh place for one scenario: <base>/w<n>/hist.csv and <base>/w<n>/states (not created: the
+    library's makedirs does that). Everything is deleted on close."""
+    _n = 0
+
     def __init__(self):
-        self.base = tempfile.mkdtemp(prefix="c16_", dir="/tmp")
+        Workspace._n += 1
+        self.base = os.path.join(_base_dir(), f"w{Workspace._n % 4}")
+        if os.path.isdir(self.base):
+            self._wipe()
+        else:
+            os.mkdir(self.base)
         self.state_dir = os.path.join(self.base, "states")
         self.csv = os.path.join(self.base, "hist.csv")
 
+    def _wipe(self):
+        for root, dirs, files in os.walk(self.base, topdown=False):
+            for f in files:
+                os.unlink(os.path.join(root, f))
+            for d in dirs:
+                os.rmdir(os.path.join(root, d))
+
     def close(self):
-        shutil.rmtree(self.base, ignore_errors=True)
+        self._wipe()
 
     def __enter__(self):
         return self
